@@ -103,6 +103,61 @@ theorem invoke_never_diverges (stack : List Layer) (h : Hook) :
     simp only [invokeSpec]
     cases L.impl h <;> simp [ih]
 
+/-! ### Calls the libraries make themselves, on the context a dump object hands out -/
+
+/-- The fact about the C sources: every call site that goes through the top
+record of a context passes that record. -/
+def TopCallsOk : Prop := ∀ h : Hook, Kdf.Gen.topCallPasses h = Fwd.self
+
+instance : Decidable TopCallsOk := by
+  unfold TopCallsOk
+  exact decidable_of_iff (∀ h ∈ Hook.all, Kdf.Gen.topCallPasses h = Fwd.self)
+    ⟨fun H h => H h (by cases h <;> simp [Hook.all]), fun H h _ => H h⟩
+
+theorem top_calls_ok : TopCallsOk := by decide
+
+/-- the specification skips layers that leave the hook untouched -/
+theorem invokeSpec_skip (tops : List Layer) (stack : List Layer) (h : Hook)
+    (hno : ∀ T ∈ tops, T.impl h = none) :
+    invokeSpec (tops ++ stack) h = invokeSpec stack h := by
+  induction tops with
+  | nil => rfl
+  | cons T rest ih =>
+    have hT : T.impl h = none := hno T (by simp)
+    simp only [List.cons_append, invokeSpec, hT]
+    exact ih (fun U hU => hno U (by simp [hU]))
+
+/-- Any number of application layers that leave hook `h` untouched, stacked on
+the layer that a dump object installed (before or after the dump was opened),
+are invisible to the libraries' own calls: the dump object's implementation is
+run, with its own record (hence its own private data). -/
+theorem topCall_transparent_of (hf : ForwardersOk) (ht : TopCallsOk) (tops : List Layer) (D : Layer) (rest : List Layer)
+    (h : Hook) (f : Nat) (hno : ∀ T ∈ tops, T.impl h = none) (hD : D.impl h = some f) (fuel : Nat)
+    (hfuel : (tops ++ D :: rest).length < fuel) (own : Nat) :
+    topCall fuel (tops ++ D :: rest) h own = .called f D.priv (rest.length + 1) := by
+  unfold topCall
+  rw [ht h]
+  have := invoke_eq_spec hf (tops ++ D :: rest) h fuel hfuel
+  unfold invoke at this
+  simp only [this, invokeSpec_skip tops (D :: rest) h hno, invokeSpec, hD]
+
+theorem topCall_transparent (tops : List Layer) (D : Layer) (rest : List Layer)
+    (h : Hook) (f : Nat) (hno : ∀ T ∈ tops, T.impl h = none) (hD : D.impl h = some f) (fuel : Nat)
+    (hfuel : (tops ++ D :: rest).length < fuel) (own : Nat) :
+    topCall fuel (tops ++ D :: rest) h own = .called f D.priv (rest.length + 1) :=
+  topCall_transparent_of forwarders_ok top_calls_ok tops D rest h f hno hD fuel hfuel own
+
+/-- What the property excludes: a call site that fetches the top record but
+passes the dump object's own record makes the top layer's forwarder continue
+BELOW the dump object's layer — with one pass-through layer on top the look-up
+ends at the built-in default instead of the dump object's implementation. -/
+example :
+    let D : Layer := { priv := 0x1111, impl := fun h => if h = .symValue then some 3 else none }
+    let T : Layer := { priv := 0x2222, impl := fun _ => none }
+    callFn 8 [T, D] .symValue ([T, D].drop 1) = .base .symValue 0 ∧
+    callFn 8 [T, D] .symValue [T, D] = .called 3 0x1111 1 := by
+  decide
+
 /-! ### Non-vacuity: a two-deep stack with a pass-through layer on top of an
 overriding base layer sees the base layer's private data. -/
 example :
